@@ -307,7 +307,7 @@ func init() {
 		Setup: func(string) {
 			c12.eng = liquid.NewEngine()
 			if _, err := c12.eng.ParseTemplateAndCache([]byte(c12IncBody), c12IncName, 1); err != nil {
-				panic("harness: " + err.Error())
+				panic(explore.BaselineFailure{Msg: "harness: " + err.Error()})
 			}
 		},
 		Families: c12Families,
